@@ -920,15 +920,16 @@ CONFIG["C13"] = dict(
                "in the rest of that iteration, channel free afterwards: SearchStopped last and once; host name in any letter case); "
                "no_ptr_query_after_stop + stop_browse_gone (no PTR question for the type in any later history until browsed again); "
                "no_host_query_after_stop (no A+AAAA / single A or AAAA question for the name, for a daemon without browse work); "
-               "delays_ok_run.",
+               "delays_ok_run. Whole-history capstones from the fresh daemon: browse_channel_lifecycle, resolve_channel_lifecycle "
+               "(nothing on the channel before the call, SearchStarted first, SearchStopped at the stop and nothing after, nothing "
+               "ever after), timeout_channel_lifecycle + timeout_ends_for_good + stale_silent_for_ever (SearchTimeout then "
+               "SearchStopped at the first iteration at/after the deadline, nothing after; the retransmission left queued is inert "
+               "and is purged by a new search of the name).",
     level_note="Trusted: Lean kernel; allowed axioms only; hand model tied to the code by differential comparison of whole "
                "histories; simulation seams. Histories with responders are decided by the monitor only (no model prediction); "
                "'forgets the records it cached' is checked through a later browse of the same type in the same history, not "
                "through metrics.",
-    partial=["client model: the stop theorems take as hypothesis that the search is still running on its channel when the stop is "
-             "processed (a find? on the state in which the stop command runs); the time-out case is covered by the step contracts "
-             "(C17.timeout_contract_client, resolve_rerun_closed: the queued re-run of a timed-out search is a no-op), not by a "
-             "channel invariant; Found-before-Resolved and the shutdown clause are monitor-only",
+    partial=["Found-before-Resolved and the shutdown clause are monitor-only",
              "no_host_query_after_stop assumes a daemon without browse work (A/AAAA questions for the host of a browsed service are "
              "legitimate and have the same shape)"],
     assumptions=["event receivers stay alive", "address queries for a host are attributed to the stopped hostname search only when the daemon has no browse in the history"],
